@@ -222,30 +222,26 @@ func genEPUB(r *hx.Rng) *pkg {
 		manifest = append(manifest, manItem{"ncx", "toc.ncx", "application/x-dtbncx+xml", ""})
 		p.Decoys = append(p.Decoys, part{Tok: ncxTok, ID: "ncx", Name: "", InManifest: true})
 	}
-	// a blank page in the spine (own stream, one package in twelve): a content document
-	// with an empty body carries no text and no token, so the token oracles cannot speak
-	// about it: compared with the model only (the chapter is listed and counted; Text() and
-	// Markdown() skip it; its Document page is numbered by its position)
-	blankName := ""
-	if br := r.Fork(0xb1a4); br.Chance(1, 12) {
-		name := joinName(p.Base, "blank.xhtml")
-		if !used[name] {
-			used[name] = true
-			blankName = name
-			p.Blank = name
-			manifest = append(manifest, manItem{"blank", "blank.xhtml", "application/xhtml+xml", ""})
-			at := br.Intn(len(spine) + 1)
-			spine = append(spine[:at], append([]string{"blank"}, spine[at:]...)...)
-			p.Oracle = false
-			p.Notes = append(p.Notes, "blank-chapter")
-		}
-	}
+	// text-less chapters (textless.go; own stream, one package in four): a cover or plate page
+	// holding an image only, a blank separator page, ... They are declared readable parts
+	// without a token: pages of their own, which is what the oracles expect (p.pages()).
+	p.addEPUBTextless(r.Fork(0xb1a4), used, &manifest, &spine)
 	manifest = append(manifest, manItem{"css", "style/main.css", "text/css", ""})
 	hx.Shuffle(r, manifest)
 	if r.Chance(1, 30) && len(p.Declared) > 1 { // duplicate manifest id: ambiguous declaration
-		manifest = append(manifest, manItem{p.Declared[0].ID, p.Declared[1].Ref, "application/xhtml+xml", ""})
-		p.Oracle = false
-		p.Notes = append(p.Notes, "dup-manifest-id")
+		// (between text-bearing entries: a page without text is attributed, on the op line, to
+		// the text-less chapters in spine order, which needs all of them presented)
+		var tb []part
+		for _, d := range p.Declared {
+			if d.NoText == "" {
+				tb = append(tb, d)
+			}
+		}
+		if len(tb) > 1 {
+			manifest = append(manifest, manItem{tb[0].ID, tb[1].Ref, "application/xhtml+xml", ""})
+			p.Oracle = false
+			p.Notes = append(p.Notes, "dup-manifest-id")
+		}
 	}
 
 	// ---- members -----------------------------------------------------------------
@@ -347,6 +343,9 @@ func genEPUB(r *hx.Rng) *pkg {
 		if d.ID == "nav" {
 			continue
 		}
+		if d.NoText != "" {
+			continue // written below, from its own serial number
+		}
 		if d.State == stOK || (d.State == stDangling && r.Bool()) {
 			p.add(d.Name, chapterXHTML(d.Tok, d.Title), "")
 		}
@@ -356,8 +355,17 @@ func genEPUB(r *hx.Rng) *pkg {
 			p.add(d.Name, chapterXHTML(d.Tok, d.Title), "")
 		}
 	}
-	if blankName != "" {
-		p.add(blankName, `<?xml version="1.0" encoding="UTF-8"?>`+"\n"+`<html xmlns="http://www.w3.org/1999/xhtml"><head><title>Blank</title></head><body></body></html>`, "")
+	serial := 0
+	for _, d := range p.Declared {
+		if d.State != stOK || d.NoText == "" {
+			continue
+		}
+		serial++
+		p.add(d.Name, textlessXHTML(d.NoText, serial, p.imgRefFrom(d.Name)), "")
+		if img := joinName(p.Base, "images/cover.png"); (d.NoText == "image-only" || d.NoText == "svg-cover") && !p.has(img) && !used[img] {
+			used[img] = true
+			p.add(img, "\x89PNG\r\n\x1a\n\x00\x00\x00\rIHDR", "")
+		}
 	}
 	if hasNav {
 		var nv strings.Builder
